@@ -226,9 +226,17 @@ fn main() {
         }
     }
     if !quick {
-        for (l0, c0) in ordered_clauses(0, false) {
-            for (l1, c1) in ordered_clauses(1, false) {
-                for (l2, c2) in ordered_clauses(2, false) {
+        // (three clauses: without the hand-written matcher and the once()-tail form, which the one-
+        // and two-clause sequences cover)
+        let small = |pos: usize| -> Vec<(String, ClauseSpec)> {
+            ordered_clauses(pos, false)
+                .into_iter()
+                .filter(|(l, _)| !l.contains("[252]") && !l.contains("then-once"))
+                .collect()
+        };
+        for (l0, c0) in small(0) {
+            for (l1, c1) in small(1) {
+                for (l2, c2) in small(2) {
                     seqs.push((
                         format!("{l0},{l1},{l2}"),
                         vec![c0.clone(), c1.clone(), c2.clone()],
